@@ -3,7 +3,8 @@ import itertools
 from core import Case
 
 PROP = 'C02'
-COQ_FILES = ['Extract/C02.v', 'Properties/C02.v']
+COQ_FILES = ['Extract/C02.v', 'Proofs/SignPlaceSeq.v', 'Proofs/SignPlaceTx.v', 'Proofs/TamperDigest.v',
+             'Proofs/TamperDigestWitness.v', 'Properties/C02.v']
 DRIVER = 'c02'
 IMPL = 'harness/impl/c02_impl.py'
 ALLOWED_AXIOMS = []
@@ -12,6 +13,19 @@ ASSUMPTIONS = [
     'Transaction.verify, Transaction.sign of bitcoinlib/transactions.py) and hold for an ARBITRARY signature '
     'relation sv; that ECDSA signatures of one digest/key are not valid for another digest/key is not proved '
     '(unforgeability; the ECDSA layer is C13) — in the correspondence it is measured with fastecdsa on every case',
+    'sign_then_verify / sign_history_* / tx_history_* (coq/Model/SignSeq.v, coq/Proofs/SignPlaceSeq.v, SignPlaceTx.v): '
+    'every history of sign() and verify() calls on one input, and of Transaction.sign (all inputs / one target) and '
+    'Transaction.verify calls on a whole transaction, starting unsigned (any signer subsets/orders, repeated and foreign signers, '
+    'fail_on_unknown_key, replace_signatures); premises: a key\'s own signature verifies (C13), pairwise distinct keys '
+    '(Input.__init__ removes repeated keys), guard resign_free_all (excludes known class resign_keeps_stale) and, when '
+    'a verification happens between sign() calls, dup_point_free (excludes known class dup_point_keys); each guard has '
+    'a _refuted Example.  One digest per history (a digest change between calls is the other half of '
+    'resign_keeps_stale); signature-list edits made by hand are outside these theorems (covered by verify_sound / '
+    'verify_exact and the correspondence)',
+    'tamper_changes_digest / tamper_detected / tamper_detected_tx (coq/Proofs/TamperDigest.v) are stated on the C01 preimage model '
+    '(Model/Sighash.v, hash types treated like SIGHASH_ALL, wf_stx domain) for an arbitrary double hash H: the '
+    'conclusion is "digest differs OR an explicit collision of H"; the step from a different digest to "the old '
+    'signatures do not count" is the premise bound_to (unforgeability), visible in the theorem statement',
     'tie to /repo: differential correspondence on real transactions built, signed, edited, serialized and re-parsed '
     'through the public API with fixed test keys; the model runs the same scenario with the signature relation '
     'given by construction (signer point, digest id, variant) and both the verdicts and the validity matrices agree',
